@@ -2,7 +2,7 @@ PROP = dict(
     properties="Properties/C13.v",
     harness_mods=["Harness/C13.v"],
     gen=[["gen-vm-tables", "-out", "coq/gen"]],
-    runs=[dict(cmd="c13", quick=200, thorough=6000)],
+    runs=[dict(cmd="c13", quick=400, thorough=40000)],
     trusted_base=[
         "hand-written Gallina executable specification of NeoVM: coq/VM/{Arith,Items,Decode,Data,Model}.v (the property's "
         "'independent executable specification'; its internal consistency is proved, its agreement with vm.go is by correspondence)",
